@@ -1188,8 +1188,19 @@ class RZILTransformer(Transformer):
         if not isinstance(a.get_val(), int) or not isinstance(b.get_val(), int):
             return None
 
-        val_a = a.get_val()
-        val_b = b.get_val()
+        # C11 6.5.8/6.5.9: both operands are converted to their common type before they are compared.
+        common_type, _ = c11_cast(
+            promoted_type(a.value_type), promoted_type(b.value_type)
+        )
+
+        def convert(val: int) -> int:
+            val &= (1 << common_type.bit_width) - 1
+            if common_type.signed and val >> (common_type.bit_width - 1):
+                val -= 1 << common_type.bit_width
+            return val
+
+        val_a = convert(a.get_val())
+        val_b = convert(b.get_val())
         self.il_ops_holder.rm_op_by_name(a.get_name())
         self.il_ops_holder.rm_op_by_name(b.get_name())
         match operation:
